@@ -753,6 +753,63 @@ Proof.
   - eapply bounded_weaken; [apply hvcc_record_bounded| | | |]; try lia. apply lenN_firstn'.
 Qed.
 
+(* ---- tlou / alou ---- *)
+Lemma lou_loop_bounded raw v : forall n s al it,
+  let '(al', it', _) := lou_loop raw n v s al it in al' <= al + 1060 * N.of_nat n /\ it' <= it + 256 * N.of_nat n.
+Proof.
+  induction n as [|n IH]; intros s al it; [cbn; lia|].
+  cbn [lou_loop].
+  match goal with |- context [rd_n raw 1 ?s0] => pose proof (rd_n_lt raw 1 s0) as L; destruct (rd_n raw 1 s0) as [mc s1] end.
+  cbn [fst] in L. change (256 ^ 1) with 256 in L.
+  specialize (IH (rd_loop raw mc 3 s1) (al + 40 + 4 * mc) (it + 1 + mc)).
+  destruct (lou_loop raw n v (rd_loop raw mc 3 s1) (al + 40 + 4 * mc) (it + 1 + mc)) as [[al' it'] s'].
+  lia.
+Qed.
+
+Lemma alloc_lou_bounded hs hl body : bounded (alloc_lou hs hl body) 0 67284 1 16128 hs.
+Proof.
+  unfold alloc_lou. destruct (rd_n body 4 rd0) as [vf s1]. set (v := version_of vf).
+  destruct (1 <=? v).
+  - destruct (rd_n body 1 s1) as [b s2]. destruct (negb ((b / 64) mod 4 =? 0)); [apply bounded_rej|].
+    assert (Hc : b mod 64 < 64) by (apply N.mod_lt; discriminate).
+    pose proof (lou_loop_bounded body v (N.to_nat (b mod 64)) s2 (8 * (b mod 64)) 0) as H.
+    destruct (lou_loop body (N.to_nat (b mod 64)) v s2 (8 * (b mod 64)) 0) as [[al it] s'].
+    unfold bounded. eexists; split; [reflexivity|]. cbn [o_alloc o_iters]. lia.
+  - pose proof (lou_loop_bounded body v 1 s1 8 0) as H.
+    destruct (lou_loop body 1 v s1 8 0) as [[al it] s'].
+    unfold bounded. eexists; split; [reflexivity|]. cbn [o_alloc o_iters]. lia.
+Qed.
+
+(* ---- avcC ---- *)
+Lemma avcc_nalus_count raw : forall n pos cnt pos' c, avcc_nalus raw n pos cnt = Some (pos', c) -> c <= cnt + N.of_nat n.
+Proof.
+  induction n as [|n IH]; intros pos cnt pos' c; cbn [avcc_nalus]; [intros [= <- <-]; lia|].
+  destruct (lenN raw <? pos + 2); [discriminate|].
+  destruct (lenN raw <? pos + 2 + (byte_at raw pos * 256 + byte_at raw (pos + 1))); [discriminate|].
+  intros H. apply IH in H. lia.
+Qed.
+
+Lemma avcc_record_bounded raw n : bounded (avcc_record raw) 0 6912 1 286 n.
+Proof.
+  unfold avcc_record. destruct (lenN raw <? 6); [apply bounded_rej|].
+  destruct (negb (byte_at raw 0 =? 1)); [apply bounded_rej|].
+  destruct (negb (byte_at raw 4 mod 4 =? 3)); [apply bounded_rej|].
+  assert (H5 : byte_at raw 5 mod 32 < 32) by (apply N.mod_lt; discriminate).
+  destruct (avcc_nalus raw (N.to_nat (byte_at raw 5 mod 32)) 6 0) as [[pos c1]|] eqn:E1;
+    [|unfold bounded; eexists; split; [reflexivity|]; cbn [o_alloc o_iters]; lia].
+  apply avcc_nalus_count in E1.
+  destruct (lenN raw <=? pos); [unfold bounded; eexists; split; [reflexivity|]; cbn [o_alloc o_iters]; lia|].
+  assert (Hp : byte_at raw pos < 256) by (unfold byte_at; apply N.mod_lt; discriminate).
+  destruct (avcc_nalus raw (N.to_nat (byte_at raw pos)) (pos + 1) 0) as [[pos2 c2]|] eqn:E2;
+    [|unfold bounded; eexists; split; [reflexivity|]; cbn [o_alloc o_iters]; lia].
+  apply avcc_nalus_count in E2.
+  repeat match goal with |- context [if ?c then _ else _] => destruct c end;
+    unfold bounded; eexists; (split; [reflexivity|]); cbn [o_alloc o_iters]; lia.
+Qed.
+
+Lemma alloc_avcc_bounded p hs hl body : bounded (alloc_avcc p hs hl body) 0 6912 1 286 hs.
+Proof. unfold alloc_avcc. destruct p; [|apply avcc_record_bounded]. apply avcc_record_bounded. Qed.
+
 (* ---- box level ---- *)
 Definition bounded_tab (r : res aout) (n : N) : Prop :=
   exists o, r = Ok o /\ o_alloc o <= 86 * n + 1048560 /\ o_iters o <= 3 * n + 65536.
